@@ -82,13 +82,16 @@ class StatThresholdAnomaliser(CollectiveAnomalyDetector):
             exact format depends on annotation type
         """
         # This is the required output format for the rest of the code to work.
-        segments = self.change_detector_.transform(X)["labels"]
-        df = pd.concat([X, segments], axis=1)
+        # Work on integer positions and plain arrays, so that the container type of X
+        # and its column names do not matter.
+        segments = self.change_detector_.transform(X)["labels"].to_numpy()
+        values = pd.DataFrame(X).iloc[:, 0].to_numpy()
         anomalies = []
-        for _, segment in df.reset_index(drop=True).groupby("labels"):
-            segment_stat = self.stat(segment.iloc[:, 0].values)
+        for label in np.unique(segments):
+            positions = np.flatnonzero(segments == label)
+            segment_stat = self.stat(values[positions])
             if (segment_stat < self.stat_lower) | (segment_stat > self.stat_upper):
-                anomalies.append((int(segment.index[0]), int(segment.index[-1] + 1)))
+                anomalies.append((int(positions[0]), int(positions[-1] + 1)))
 
         return CollectiveAnomalyDetector._format_sparse_output(anomalies)
 
